@@ -230,6 +230,15 @@ func GenSProgram(t *rapid.T, cfg SGenCfg) SProgram {
 			p.Ops = append(p.Ops, SOp{K: "remove", Node: n}, SOp{K: "reconnect", Node: n}, SOp{K: "addresize", Node: n, N: int64(add)})
 			blocks += add
 			total = int64(blocks) * 8
+		case "resizerace":
+			add := rapid.IntRange(2, 8).Draw(t, "grow")
+			sd := rapid.IntRange(0, 299).Draw(t, "second")
+			p.Ops = append(p.Ops, SOp{K: "resizerace", N: int64(add), Seed: sd})
+			blocks += add
+			if sd%3 == 2 {
+				blocks += 1 + (sd/3)%4
+			}
+			total = int64(blocks) * 8
 		case "addwrite":
 			n := rapid.IntRange(0, nodes-1).Draw(t, "node")
 			p.Ops = append(p.Ops, SOp{K: "remove", Node: n}, SOp{K: "reconnect", Node: n},
